@@ -4,7 +4,7 @@ tier=${1:-quick}; shift
 cd "$(dirname "$0")/.."
 ./check setup >/dev/null 2>&1 || { echo "setup failed"; exit 2; }
 ids="$*"
-[ -n "$ids" ] || ids=$(./check list)
+[ -n "$ids" ] || ids=$(./check list | awk '{print $1}')
 rc=0
 for id in $ids; do
   s=$(date +%s)
